@@ -628,6 +628,9 @@ def access_kind(f, n):
             except ValueError:
                 return 'read'
             ptypes = _param_types(fid)
+            if cal.get('n', '').split('<')[0] in ('std::make_pair', 'std::forward', 'std::make_tuple', 'std::min', 'std::max',
+                                                  'std::find', 'std::begin', 'std::end', 'std::size'):
+                return 'read'     # take (forwarding) references but do not modify their arguments
             if k == 'CXXOperatorCallExpr' and len(ptypes) == len(args) - 1:
                 # member operator: the first operand is the object itself
                 if ai == 0:
